@@ -47,6 +47,9 @@ def configs(tier, seed):
         out.append({"seed": 100 * seed + 53, "model": "nocheck", "kwargs": {**base, "reparameterisation": None}})
         out.append({"seed": 100 * seed + 54, "model": "nocheck", "kwargs": {**base, "reparameterisation": None, "draw_iid_live": False,
                                                                          "max_iteration": 5}})
+        # tied likelihoods (a floor; exactly zero outside a disc): the order among ties is decided by the other fields
+        out.append({"seed": 100 * seed + 55, "model": "floor", "kwargs": dict(base)})
+        out.append({"seed": 100 * seed + 56, "model": "cut", "kwargs": {**base, "strict_threshold": True}})
         # checkpoint/resume cycles (the process dies right after the checkpoint of the listed iterations): the restored
         # stores are checked before the resumed sampler does anything, then after every further iteration
         out.append({"seed": 100 * seed + 60, "kwargs": {**base, "max_iteration": 4}, "resume_after": [2]})
@@ -63,7 +66,7 @@ def configs(tier, seed):
             i += 1
             kw = {**base, "nlive": 80, "max_iteration": 5, "min_samples": 30, "strict_threshold": st,
                   "replace_all": ra, "draw_constant": dc, "draw_iid_live": iid, "reparameterisation": rp}
-            out.append({"seed": 100 * seed + i, "kwargs": kw, "model": ["uniform", "constrained", "gaussprior", "nocheck"][i % 4]})
+            out.append({"seed": 100 * seed + i, "kwargs": kw, "model": ["uniform", "constrained", "gaussprior", "nocheck", "floor", "cut"][i % 6]})
         for j, (ra, slq, iid) in enumerate(itertools.product([[2], [1, 2], [1, 3, 4]], [False, True], [True, False])):
             out.append({"seed": 100 * seed + 60 + j, "model": ["uniform", "constrained", "gaussprior"][j % 3], "resume_after": ra,
                         "kwargs": {**base, "nlive": 80, "max_iteration": 5, "min_samples": 30, "save_log_q": slq,
